@@ -265,6 +265,28 @@ func advGrid() []advCase {
 			return "local a, n = 1, 0\nlocal function big()\n" + body() + "return 1\nend\nn = a and big() or 2\nreturn n"
 		})
 	}
+	// ---- G2. jump-to-jump threading: every single hop fits the 18-bit signed operand, the threaded distance may not
+	for _, nm := range [][2]int{{70000, 70000}, {65530, 65534}, {65534, 65534}, {65535, 65535}, {65535, 65536}, {65536, 65536}, {131060, 5}, {5, 131060}, {131068, 1}, {131069, 1}, {131070, 1}, {1, 131069}, {1, 131070}} {
+		n, m := nm[0], nm[1]
+		b1 := func() string { return strings.Repeat("a=1\n", n) }
+		b2 := func() string { return strings.Repeat("a=2\n", m) }
+		// `JMP inner-end` lands on `JMP outer-end`: forward + forward
+		addBig(fmt.Sprintf("thread-%d-%d-ifelse-nested", n, m), "ok:1,2,3", func() string {
+			return "local function f(o, c)\nlocal a, r = 0, 0\nif o then\nif c then r = 1 else\n" + b1() + "r = 2\nend\nelse\n" + b2() + "r = 3\nend\nreturn r\nend\nreturn f(true, true), f(true, false), f(false, false)"
+		})
+		// break inside the else-less tail of a loop body: `JMP out` chains through the loop's exit jump
+		addBig(fmt.Sprintf("thread-%d-%d-while-if-break", n, m), "ok:1,7", func() string {
+			return "local function f(o)\nlocal a, r = 0, 0\nwhile r < 1 do\nif o then r = 7 break else\n" + b1() + "r = 1\nend\nend\n" + "if r == 7 then return r end\n" + b2() + "return r\nend\nreturn f(false), f(true)"
+		})
+		// backward edge onto a forward jump: the loop starts with an `if false` skip over a long block
+		addBig(fmt.Sprintf("thread-%d-%d-repeat-skip", n, m), "ok:3", func() string {
+			return "local a, k = 0, 0\nrepeat\nif a == 99 then\n" + b1() + "end\n" + b2() + "k = k + 1\nuntil k >= 3\nreturn k"
+		})
+		// goto onto a jump: the label is followed by a break / an else-skip
+		addBig(fmt.Sprintf("thread-%d-%d-goto-chain", n, m), "ok:4", func() string {
+			return "local a, r = 0, 0\nwhile true do\nif r == 0 then r = 4 goto skip end\n" + b1() + "::skip::\nif r == 4 then break end\n" + b2() + "end\nreturn r"
+		})
+	}
 	// ---- H. label ids around 2^17 (each `if` allocates three labels)
 	for m := 43686; m <= 43694; m++ {
 		m := m
@@ -292,7 +314,8 @@ func advCases(r *Rng, n int, full bool) []Case {
 		sel = grid
 	} else {
 		must := []string{"assign-targets-511", "assign-targets-600", "locals-199-call", "locals-200-genfor", "array-25551-existing-local",
-			"array-25600-const", "upvalues-255-read", "upvalues-256-read", "upvalues-290-read", "nest-200-functions"}
+			"array-25600-const", "upvalues-255-read", "upvalues-256-read", "upvalues-290-read", "nest-200-functions",
+			"thread-70000-70000-ifelse-nested", "thread-65535-65536-ifelse-nested", "thread-65536-65536-while-if-break", "thread-131069-1-repeat-skip", "thread-65535-65536-goto-chain"}
 		byName := map[string]advCase{}
 		var small, big []advCase
 		for _, c := range grid {
